@@ -188,6 +188,11 @@ def run(ctx):
         A.include(ctx, r, 'c17', 'R17.2', pick=('own-timer', 'only-caller', 'rx:on-bytes', 'tx:on-every-ok-write'))
         A.include(ctx, r, 'c17', 'R17.1', pick=('rx-tx-intervals', 'max-missed'))
 
+    with ctx.rule('R05.7', "server-initiated close: every slot and consumer is told and the stored Close keeps the server's code and text for the final error (shared with C08)", floor=5) as r:
+        A.include(ctx, r, 'c08', 'R08.4')
+        A.include(ctx, r, 'c08', 'R08.5', pick=('result:',))
+        A.include(ctx, r, 'c08', 'R08.1', pick=('seal-dominates',))
+
     with ctx.rule('R05.5', 'close joins the I/O thread and reports its error in preference to the close call\'s own result', floor=5) as r:
         fnp = 'connection::Connection::close_impl'
         evs, ret = ctx.events(fnp)
